@@ -37,7 +37,7 @@ func c13Statement(m *big.Int, sign int, factor uint, diff *big.Int, sp rangeproo
 func TestVerifC13(t *testing.T) {
 	r := vkit.Start(t, "C13", "completeness", 240*time.Second, 1500*time.Second)
 	defer r.Finish()
-	r.Rule = "attribute m (large, so that bounds stay non-negative); statement sign*(factor*m-bound)=diff for diff in [-3,W] and 2^k, 2^k-1 (k up to 255), sign in {+1,-1}, factor 1..8 with four squares; factor 1 with GenerateSquaresTable(limit) for limit in {5,16,17,31,33,64,100} (thorough: + 15,32,63,65,255,256,257) and every diff in [-2, limit+1]; combinations of 2-3 statements on one and two attributes; query sequences of 3 proofs from one reused Statement object whose bound the caller moves in place between queries (earlier proofs must keep verifying and reporting their bound); honest proofs also with every range-proof random draw forced to min/max/short (<=1 deviation); a failure of the random source at every draw of Commit followed by a second Commit on the same builder; non-trivial = distinct (splitter, sign, factor, diff); oracle: diff>=0 (and within the documented table limit) => proof created, verifies, Proves(statement); diff<0 => ErrFalseStatement"
+	r.Rule = "attribute m (large, so that bounds stay non-negative); statement sign*(factor*m-bound)=diff for diff in [-3,W] and 2^k, 2^k-1 (k up to 255), sign in {+1,-1}, factor 1..8 with four squares; attributes at the edges of the attribute range {2^Lm-10, 2^Lm-1, 2^(Lm-1), 0, 1, 9} x sign x factor 1..8 x diff {0,5,-1}; factor 1 with GenerateSquaresTable(limit) for limit in {5,16,17,31,33,64,100} (thorough: + 15,32,63,65,255,256,257) and every diff in [-2, limit+1]; combinations of 2-3 statements on one and two attributes; query sequences of 3 proofs from one reused Statement object whose bound the caller moves in place between queries (earlier proofs must keep verifying and reporting their bound); honest proofs also with every range-proof random draw forced to min/max/short (<=1 deviation); a failure of the random source at every draw of Commit followed by a second Commit on the same builder; non-trivial = distinct (splitter, sign, factor, diff); oracle: diff>=0 (and within the documented table limit) => proof created, verifies, Proves(statement); diff<0 => ErrFalseStatement"
 	k := vfK("toyA")
 	pk := k.Pk
 	env := vfInstallEnv(t, "C13", r.Seed)
@@ -119,6 +119,52 @@ func TestVerifC13(t *testing.T) {
 				desc := fmt.Sprintf("4sq sign=%d factor=1 diff~2^%d (%s)", sign, kk, vfShort(d))
 				r.Nontrivial(desc)
 				try(desc, map[int][]*rangeproof.Statement{1: {c13Statement(m, sign, 1, d, nil)}}, true, fmt.Sprintf("4sq|sign=%d|diff=2^k", sign))
+			}
+		}
+	}
+	// attributes at the edges of the attribute range (factor*m is then as long as it can get, or tiny)
+	edge := []*big.Int{new(big.Int).Sub(vfPow2(pk.Params.Lm), vfInt(10)), new(big.Int).Sub(vfPow2(pk.Params.Lm), vfInt(1)), vfPow2(pk.Params.Lm - 1), vfInt(0), vfInt(1), vfInt(9)}
+	for ei, em := range edge {
+		if _, mine := r.Next(); !mine {
+			continue
+		}
+		ecred := vfMint(k, vfTag("c13-secret"), []*big.Int{em, vfTag("c13-a2")}, 1)
+		for _, sign := range []int{1, -1} {
+			for factor := uint(1); factor <= 8; factor++ {
+				for _, d := range []int64{0, 5, -1} {
+					st := c13Statement(em, sign, factor, vfInt(d), nil)
+					if st.Bound.Sign() < 0 {
+						continue
+					}
+					desc := fmt.Sprintf("4sq edge attribute #%d (%s) sign=%d factor=%d diff=%d", ei, vfShort(em), sign, factor, d)
+					r.Nontrivial(desc)
+					r.Eval()
+					var p *ProofD
+					var err error
+					pan, msg := vkit.Guard(func() {
+						p, err = ecred.CreateDisclosureProof([]int{2}, map[int][]*rangeproof.Statement{1: {st}}, false, vfContext, vfNonce)
+					})
+					cls := fmt.Sprintf("4sq-edge-attribute|sign=%d|%s", sign, c13DiffClass(d))
+					r.Outcome(fmt.Sprintf("%s:created=%v", cls, !pan && err == nil))
+					switch {
+					case pan:
+						r.Violate("C13|proof-creation-panicked|"+cls, desc+": "+msg, desc)
+					case d < 0:
+						if err == nil {
+							if acc, _ := c12Verify(pk, p); acc {
+								r.Violate("C13|false-statement-proved|"+cls, desc, desc)
+							}
+						}
+					case err != nil:
+						r.Violate("C13|true-statement-not-provable|"+cls, fmt.Sprintf("%s: %v", desc, err), desc)
+					default:
+						if acc, _ := c12Verify(pk, p); !acc {
+							r.Violate("C13|true-statement-proof-rejected|"+cls, desc, desc)
+						} else if len(p.RangeProofs[1]) != 1 || !p.RangeProofs[1][0].Proves(st) {
+							r.Violate("C13|proof-does-not-report-requested-statement|"+cls, desc, desc)
+						}
+					}
+				}
 			}
 		}
 	}
